@@ -18,6 +18,11 @@ class Boom(Exception):
     """Private exception type injected by fault-injecting spies."""
 
 
+class BoomBase(BaseException):
+    """Same, but not derived from Exception (like KeyboardInterrupt, SystemExit, asyncio.CancelledError or a test framework's outcome
+    exceptions): clean-up written as `except Exception` does not see it."""
+
+
 def case_hash(desc):
     return hashlib.sha1(json.dumps(desc, sort_keys=True, default=str).encode()).hexdigest()[:12]
 
